@@ -27,11 +27,12 @@ FLOORS = {'quick': {'losses_acknowledged_by_master': 150, 'applications_evaluate
                     'losses_acknowledged_while_jobs_in_progress': 20, 'handler_calls': 150,
                     'handler_set_comparisons': 2000, 'handler_dispatches_checked': 150, 'handler_promotions': 30,
                     'supvisors_strategy_crashes_evaluated': 4, 'lost_processes_with_a_stop_job_checked': 15,
-                    'handler_superseded': 200},
+                    'handler_superseded': 200, 'copy_deaths_judged': 60},
           'thorough': {'losses_acknowledged_by_master': 3000, 'applications_evaluated_after_loss': 2000,
                        'losses_acknowledged_while_jobs_in_progress': 400, 'handler_calls': 3000,
                        'handler_set_comparisons': 40000, 'handler_dispatches_checked': 3000,
                        'supvisors_strategy_crashes_evaluated': 80, 'lost_processes_with_a_stop_job_checked': 250,
+                       'copy_deaths_judged': 1200,
                        'handler_promotions': 600, 'handler_superseded': 4000}}
 COUNT = {'quick': 640, 'thorough': 12000}
 BUDGET_S = {'quick': 55, 'thorough': 540}
@@ -63,13 +64,55 @@ SLOW_KNOBS = dict(KNOBS, handshake_skew=[0.0, 0.3, 1.0, 2.0, 3.0],
                   actions=KNOBS['actions'] + ['restart', 'restart'])
 
 
+# a fifth family: a duplicate copy of a running process (conflicts left to the user) dies - unexpected exit or FATAL -
+# while the first copy keeps running: the process has not crashed, no running failure strategy applies
+COPY_KNOBS = {'n_min': 2, 'n_max': 4, 'keep_master': True,
+              'apps': {'n_apps': (1, 3), 'n_progs': (1, 3), 'seq_max': 2, 'startsecs': (1, 6), 'stopwaitsecs': (2, 5),
+                       'managed_p': 1.0, 'autorestart': ('false',), 'identifiers_p': 0.0, 'supvisors_failure_p': 0.15,
+                       'per_instance_diff': 0.0},
+              'behaviours': ['normal'], 'options': {'conciliation_strategy': 'USER'}, 'dup_managed_only': True,
+              'actions': ['dup_then_kill_copy'], 'n_actions': [1], 'gaps': [40.0], 'fence': 'false', 'early_p': 0.0}
+COPY_CASES = {'quick': 160, 'thorough': 3000}
+
+
 def plan(tier, seed):
     # two families: end-to-end losses in a cluster (L3), histories fed to the real handler (L1)
     cases = [{'seed': seed * 1000003 + i, 'family': 'cluster'} for i in range(COUNT[tier])]
     cases += [{'seed': seed * 1000003 + 500000 + i, 'family': 'handler'} for i in range(HANDLER_CASES[tier])]
     cases += [{'seed': seed * 1000003 + 800000 + i, 'family': 'loss-during-stop'} for i in range(STOP_CASES[tier])]
     cases += [{'seed': seed * 1000003 + 900000 + i, 'family': 'slow-handshake'} for i in range(COUNT[tier] // 8)]
+    cases += [{'seed': seed * 1000003 + 700000 + i, 'family': 'copy-dies'} for i in range(COPY_CASES[tier])]
     return cases
+
+
+def copy_dies_oracle(run, tracker):
+    """ The copy that died was not the only one: the process keeps running, nothing is to be repaired. """
+    out = []
+    for action in run.actions:
+        killed = action.get('copy_killed')
+        if not killed:
+            continue
+        namespec, first, second, when = killed
+        app = namespec.split(':')[0]
+        w = run.world
+        survivor = w.instances.get(first)
+        # judged when the first copy has truly kept running on a live instance until the end of the run
+        if survivor is None or not survivor.alive or survivor.running_truth().get(namespec) != 20:
+            run.count('copy_deaths_not_judged')
+            continue
+        run.count('copy_deaths_judged')
+        later = [r for r in tracker.requests + tracker.stops
+                 if r['t'] > when and r['namespec'].split(':')[0] == app]
+        closing = [s for (nick, inc), s in getattr(tracker, 'sender_state', {}).items()
+                   if s in ('RESTARTING', 'SHUTTING_DOWN', 'FINAL')]
+        if later or closing:
+            what = [(r['kind'], r['sender'], r['namespec'], r['target_nick']) for r in later[:4]]
+            out.append({'key': 'C06/strategy-applied-although-the-process-still-runs',
+                        'msg': f'a duplicate copy of {namespec} died on {second} at vt={round(when - 1_700_000_000.0, 2)} '
+                               f'while the copy on {first} kept running (it still runs at the end): the process has not '
+                               f'crashed, yet requests followed for its application: {what}, closing states: {closing}',
+                        'detail': {'case': run.describe()}})
+    return out
 
 
 def run_case(case):
@@ -77,10 +120,12 @@ def run_case(case):
         return run_handler_case(case)
     tracker = Tracker()
     mon = RunningFailureMonitor(tracker)
-    run = Run(case, {'loss-during-stop': STOP_KNOBS, 'slow-handshake': SLOW_KNOBS}.get(case.get('family'), KNOBS),
-              [tracker, mon])
+    run = Run(case, {'loss-during-stop': STOP_KNOBS, 'slow-handshake': SLOW_KNOBS,
+                     'copy-dies': COPY_KNOBS}.get(case.get('family'), KNOBS), [tracker, mon])
     violations = run.execute()
-    nontrivial = mon.counters.get('lost_processes', 0) > 0
+    if case.get('family') == 'copy-dies':
+        violations = list(violations) + copy_dies_oracle(run, tracker)
+    nontrivial = mon.counters.get('lost_processes', 0) > 0 or run.counters.get('copy_deaths_judged', 0) > 0
     return {'violations': violations, 'counters': run.counters,
             'signature': ('c|' + run.shape()) if nontrivial else None, 'sample': run.describe()}
 
